@@ -117,6 +117,9 @@ class Module:
             return self.plain(n, loc)
         if isinstance(n, ast.Attribute):
             if self.is_c(n):
+                if n.attr in ("VarInt", "ZigZag"):
+                    # LEB128-style variable-length integer: 1..n octets (size 0 = variable)
+                    return N("Int", {"size": 0, "signed": n.attr == "ZigZag", "endian": "varint", "type": n.attr}, line=n.lineno)
                 if n.attr in PRIMS:
                     endian = "big" if n.attr.endswith("b") or n.attr == "Byte" or PRIMS[n.attr][0] == 1 else ("little" if n.attr.endswith("l") else "native")
                     return N("Int", {"size": PRIMS[n.attr][0], "signed": PRIMS[n.attr][1], "endian": endian, "type": n.attr}, line=n.lineno)
